@@ -70,6 +70,12 @@ PermSets == { "", "r", "w", "x", "a", "rw", "rx", "ra", "wx", "wa", "xa", "rwx",
 Watch == { [c |-> "watch", perm |-> p, wtype |-> t, nkeys |-> k] : p \in PermSets, t \in { "path", "dir" }, k \in 0..2 }
 
 \* the 64-entry field table is filled by -F and by -C arguments alike; cmp says where the -C ones sit
+\* syscall rules laid out like a file watch (path=/dir= then perm=, a key): only the exact shape of a watch
+\* (always,exit, =, path before perm) may be listed as -w; every other one has to stay a syscall rule
+WLike == { [c |-> "wlike", action |-> a, pf |-> f, pop |-> o, perm |-> p, permv |-> v, nkeys |-> k, sc |-> s] :
+             a \in Actions, f \in { "path", "dir" }, o \in { "=", "!=" }, p \in { "none", "after", "before" },
+             v \in { "r", "wa", "rwxa" }, k \in 0..2, s \in { "none", "all", "one" } }
+
 NFields == { [c |-> "nfields", n |-> n, key |-> k, cmp |-> m] : n \in { 0, 1, 2, 31, 62, 63, 64, 65, 66, 70 }, k \in BOOLEAN,
              m \in { "none", "last", "last2", "first", "all" } }
 
@@ -94,7 +100,7 @@ FlagCases == { [c |-> "flags", order |-> s] : s \in Seqs(FlagLetters, 4) }
 Flags == FlagCases
 
 All == (IF "fop" \in Family THEN Fop ELSE {}) \cup (IF "shape" \in Family THEN Shape ELSE {})
-       \cup (IF "cmp" \in Family THEN Cmp ELSE {}) \cup (IF "watch" \in Family THEN Watch ELSE {})
+       \cup (IF "cmp" \in Family THEN Cmp ELSE {}) \cup (IF "watch" \in Family THEN Watch \cup WLike ELSE {})
        \cup (IF "nfields" \in Family THEN NFields ELSE {}) \cup (IF "sysnum" \in Family THEN SysNum \cup SysBig ELSE {})
        \cup (IF "decode" \in Family THEN Decode ELSE {}) \cup (IF "flags" \in Family THEN Flags ELSE {})
 
